@@ -38,7 +38,7 @@ class Proof:
     level 'deductive' results count as discharged obligations; 'bounded' ones never do.
     """
 
-    def __init__(self, name, roots, enforce=None, replace=(), harness=None, solver="sat", unwind=None,
+    def __init__(self, name, roots, enforce=None, replace=(), harness=None, solver="portfolio", unwind=None,
                  tier="quick", level="deductive", bound_note="", timeout=900, property_level=(".*",),
                  contracts=None, extra_c="", complete_unwind_note="", loop_contracts=True, configure=None,
                  expect_obligations=(), object_bits=None, mem_gb=24, refute=None, replay=None, unwindset=(),
